@@ -250,6 +250,13 @@ def _runner(repo, fn):
     return work
 
 
+def _where(repo, q):
+    try:
+        return repo.fn(q)
+    except Exception:
+        return repo.cls(q)
+
+
 def _report(ctx, rule, results, oks):
     r, repo = ctx.r, ctx.repo
     n = sum(x[0] for x in results)
@@ -261,11 +268,11 @@ def _report(ctx, rule, results, oks):
     if any(k[1] == "uninterpretable" for k in first):
         raise AnalysisError(f"{rule}: " + [m for k, m in first.items() if k[1] == "uninterpretable"][0])
     for (q, key), msg in sorted(first.items()):
-        r.violation(rule, q, key, msg, repo.fn(q))
+        r.violation(rule, q, key, msg, _where(repo, q))
     done = {q for (q, _k) in first}
     for q, what in oks:
         if q not in done:
-            r.ok(rule, q, what, repo.fn(q), f"{n} interpreted evaluations")
+            r.ok(rule, q, what, _where(repo, q), f"{n} interpreted evaluations")
 
 
 def cds_layouts(thorough):
